@@ -383,6 +383,10 @@ class RowExec:
             elif isinstance(st, ast.Expr) and isinstance(st.value, ast.Call) and call_name(st.value) == "append" and isinstance(st.value.func, ast.Attribute) \
                     and isinstance(st.value.func.value, ast.Name) and isinstance(T.env.get(st.value.func.value.id), sp.Tuple) and len(st.value.args) == 1:
                 T.env[st.value.func.value.id] = sp.Tuple(*T.env[st.value.func.value.id], T.tr(st.value.args[0]))
+            elif isinstance(st, ast.Expr) and isinstance(st.value, ast.Call) and call_name(st.value) == "append" and isinstance(st.value.func, ast.Attribute) \
+                    and isinstance(st.value.func.value, ast.Name) and st.value.func.value.id not in T.env and len(st.value.args) == 1:
+                # a list that lives outside the per-record body (rows collected per group): what this record contributes
+                self.__dict__.setdefault("appended", {}).setdefault(st.value.func.value.id, []).append(T.tr(st.value.args[0]))
             elif isinstance(st, ast.For) and isinstance(st.iter, (ast.Tuple, ast.List)) and len(st.iter.elts) <= 8 and isinstance(st.target, ast.Name):
                 # loop over a literal sequence (e.g. the three components): unrolled
                 for e in st.iter.elts:
